@@ -693,3 +693,11 @@ pub fn run_calculator(line: &str) -> Result<String, &str> {
         }
     }
 }
+
+#[cfg(cicada_verif)]
+pub mod verif_hooks {
+    use super::*;
+    pub fn try_run_func(sh: &mut Shell, cl: &CommandLine, capture: bool, log_cmd: bool) -> Option<CommandResult> { super::try_run_func(sh, cl, capture, log_cmd) }
+    pub fn try_run_calculator(line: &str, capture: bool) -> Option<CommandResult> { super::try_run_calculator(line, capture) }
+    pub fn try_run_builtin(sh: &mut Shell, cl: &CommandLine, idx_cmd: usize, capture: bool) -> Option<CommandResult> { super::try_run_builtin(sh, cl, idx_cmd, capture) }
+}
